@@ -94,6 +94,7 @@ def c17(A, ctx, tier):
     control.r_gradpoint(A, ctx, dict(floor=9))
     control.r_fresh(A, ctx, dict(exempt={k: v for k, v in EX01.items() if k != "FISTA"}, floor=12))
     control.r_lbfgs(A, ctx, {})
+    warm.r_warmfit(A, ctx, dict(floor=5))
     history.r_niter(A, ctx, dict(floor=3))
     control.r_zero(A, ctx, dict(exempt={}, floor=7), rule="R-ZERO-BOUND", want="bound")
     return dict(explanation="diagnostics: one history entry per completed outer "
@@ -133,6 +134,7 @@ def c11(A, ctx, tier):
     misc.r_grppair(A, ctx, dict(floor=5))
     plumb.r_fitsets(A, ctx, dict(floor=3))
     plumb.r_weights_guard(A, ctx, dict(floor=6))
+    matrix.r_spec(A, ctx, dict(floor=150))
     ctx.assume("stationarity of the fitted coefficients is C01's business; the "
                "docstring-formula <-> class correspondence is not decided")
     return dict(explanation="constructor-argument plumbing of the 12 estimators: every "
@@ -149,6 +151,7 @@ def c12(A, ctx, tier):
     plumb.r_classes(A, ctx, {})
     plumb.r_expstable(A, ctx, {})
     plumb.r_fitsets(A, ctx, dict(floor=3))
+    plumb.r_squeeze(A, ctx, dict(floor=25))
     ctx.assume("probability normalisation/monotonicity (sklearn mix-ins, softmax) are "
                "runtime behaviour and not decided")
     return dict(explanation="one-vs-rest assembly gathers every fitted attribute from the "
@@ -183,6 +186,7 @@ def c10(A, ctx, tier):
     storage.r_convert(A, ctx, dict(floor=6))
     storage.r_solveformat(A, ctx, dict(floor=6))
     storage.r_storage_state(A, ctx, dict(floor=15))
+    storage.r_f32spec(A, ctx, {})
     storage.r_solverstate(A, ctx, dict(floor=25))
     misc.r_sparsetest(A, ctx, dict(floor=15))
     misc.r_sibguard(A, ctx, dict(floor=8))
@@ -256,6 +260,7 @@ def c06(A, ctx, tier):
     cox.r_istep_multitask(A, ctx, {})
     misc.r_lazyset(A, ctx, dict(floor=10))
     misc.r_accessor_pure(A, ctx, dict(floor=190))
+    matrix.r_spec(A, ctx, dict(floor=150))
     ctx.assume("Cox: the outer composition (gradient == gradient_sparse == X.T @ raw_grad) is decided "
                "for all shapes with the risk-set recursions as opaque operators; the recursions "
                "themselves are decided on six fixed tie / censoring patterns of 3-5 observations "
@@ -284,6 +289,7 @@ def c07(A, ctx, tier):
     blockpen.r_prox_zero_weight(A, ctx, dict(floor=12))
     blockpen.r_proxvec(A, ctx, dict(floor=12))
     blockpen.r_rounding(A, ctx, dict(floor=4))
+    matrix.r_spec(A, ctx, dict(floor=150))
     ctx.assume("global optimality (as opposed to stationarity) of the closed forms prox_SCAD, prox_05, "
                "prox_2_3, prox_log_sum, prox_block_2_05, prox_SLOPE is an analytic result without "
                "structural clause: not claimed")
